@@ -3,8 +3,8 @@
 Every route registered in batch.front_end.front_end.routes (enumerated from the RouteTableDef at run time)
 x callers {anonymous, unknown bearer token, inactive user (member and owner), u1, u2 (bearer and browser-session
 flavour), active user in no project, developer in no project, the `auth` service account}
-x targets (batches: 1 u1's in the shared project bp, 2 u2's in bp2 where u1 is not a member, 3 u1's deleted,
-4 u2's in bp, 5 the inactive user's, 6 u1's with update 1 staged but not committed, 99 nonexistent;
+x targets (batches: 2 u1's in the shared project bp, 3 u2's in bp2 where u1 is not a member, 4 u1's deleted,
+5 u2's in bp, 6 the inactive user's, 7 u1's with update 1 staged but not committed, 99 nonexistent;
 billing projects: bp, bp2, bpc (closed), nope (nonexistent))
 x a small table of request variants per route (fresh idempotency token / replay of the batch token that
 GET batch hands to every project member / replay of the token of an open update).
@@ -25,7 +25,7 @@ Search queries: every listing route that takes q (batches v1 / v2 / UI, jobs of 
 the UI batch page) is sent the query tables q_jobs_v1/v2, q_batches_v1/v2: no q, every state keyword (single- and multi-state:
 live, bad, done), every negation, attribute terms (k=v, has:k, job_id=), every operator of the v2 grammar per field, quoted /
 partial words, malformed terms, all ordered pairs over a 9-term alphabet and a few triples; plus recursive / paging parameters.
-Batch 7 (u2, bp2, never a target) holds one job in each of the 8 job states and every batch / job carries attributes, so a
+Batches 1 and 8 (u2, bp2, never targets; ids below / above every target) each hold one job in each of the 8 job states and every batch / job carries attributes, so a
 listing that escapes its restriction shows rows.  Every returned row must belong to a batch the caller may read AND to the
 batch (and job group, directly or as descendant when recursive) named in the URL.  Quick tier: the search queries are sent
 by u1 / u2 on three readable batches each and by the non-member on one; thorough tier: by every caller on every target.
@@ -86,14 +86,15 @@ CALLERS = {
 TOKENS = {tok: USERDATA[u] for tok, u, _ in CALLERS.values() if u}
 # quick tier: search queries are sent by the two members on three batches each can read and by the non-member on one batch
 # (the thorough tier sends every search query as every caller on every target)
-Q_TARGETS_QUICK = {'u1': (1, 4, 6, None), 'u2': (1, 2, 4, None), 'nonmember': (1, None)}
+Q_TARGETS_QUICK = {'u1': (2, 5, 7, None), 'u2': (2, 3, 5, None), 'nonmember': (2, None)}
 QUICK_CALLERS = ['anonymous', 'unknown-token', 'inactive', 'u1', 'u2', 'u2-browser', 'nonmember', 'developer', 'auth']
 CALLER_ORDER = list(CALLERS)
 API_TOKEN = '<token shown to this caller by GET /api/v1alpha/batches/{batch_id}>'
 
 NONEXISTENT_BATCH = 99
 ZOO_STATES = {1: 'Success', 2: 'Failed', 3: 'Error', 4: 'Running', 5: 'Cancelled', 6: 'Ready', 7: 'Creating', 8: 'Pending'}
-BATCH_TARGETS = (1, 2, 3, 4, 5, 6, NONEXISTENT_BATCH)
+BAIT_LOW, BAIT_HIGH = 1, 8   # u2's batches in bp2 with one job per job state, below / above every target id; never request targets
+BATCH_TARGETS = (2, 3, 4, 5, 6, 7, NONEXISTENT_BATCH)
 BP_TARGETS = ('bp', 'bp2', 'bpc', 'nope')
 LOGIN_PREFIX = None  # filled in lazily: deploy_config.external_url('auth', '/user')
 
@@ -241,20 +242,35 @@ def world():
 
     rs = (('r/a/1', 10), ('r/b/1', 5))
     saved_bid = ops.BID
-    plan = [('u1', 'bp', 'tb1', False), ('u2', 'bp2', 'tb2', True), ('u1', 'bp', 'tb3', True), ('u2', 'bp', 'tb4', True),
-            ('ui', 'bp', 'tb5', False)]
+    plan = [('u1', 'bp', 'tb2', False), ('u2', 'bp2', 'tb3', True), ('u1', 'bp', 'tb4', True), ('u2', 'bp', 'tb5', True),
+            ('ui', 'bp', 'tb6', False)]
+
+    def A(label):
+        r = ops.apply(w, label)
+        if 'http' in r or 'callerror' in r:
+            raise RuntimeError(f'C14 harness: seeding step {label[:3]} failed: {r}')
+        return r
+
+    def bait(tok):
+        # u2's batch in bp2 with one job in EVERY job state: makes a listing that escapes its batch / billing-project restriction
+        # visible whatever state filter or paging key it uses (one below, one above every target id)
+        spec = {'billing_project': 'bp2', 'n_jobs': 8, 'n_job_groups': 1, 'token': tok, 'attributes': {'name': f'n-{tok}', 'team': 'y'}}
+        ops.BID = w.run(fe._create_batch(spec, USERDATA['u2'], w.gdb))
+        A(('new_update', 'u2', tok, 8, 1))
+        A(('add_groups', 'u2', 1, [G(1, parent_abs=0)]))
+        A(('add_jobs', 'u2', 1, [J(i, abs_group=0) for i in (1, 2, 3, 4)] + [J(i, group=1) for i in (5, 6, 7)] + [J(8, group=1, parents=[4])]))
+        A(('commit_tail', 'u2', 1))
+        for jid, st in ZOO_STATES.items():
+            q("UPDATE jobs SET state = %s WHERE batch_id = %s AND job_id = %s", (st, ops.BID, jid))
+        return ops.BID
+
     try:
+        assert bait('tb1') == BAIT_LOW
         for user, bp, tok, finish in plan:
             spec = {'billing_project': bp, 'n_jobs': 2, 'n_job_groups': 1, 'token': tok, 'attributes': {'name': f'n-{tok}', 'team': 'x'}}
             bid = w.run(fe._create_batch(spec, USERDATA[user], w.gdb))
             ops.BID = bid
-
-            def A(label):
-                r = ops.apply(w, label)
-                if 'http' in r or 'callerror' in r:
-                    raise RuntimeError(f'C14 harness: seeding step {label[:3]} failed: {r}')
-                return r
-
+            assert tok == f'tb{bid}'
             A(('new_update', user, tok, 2, 1))            # update 1 carries the batch token (as create / create-fast do)
             A(('add_groups', user, 1, [G(1, parent_abs=0)]))
             A(('add_jobs', user, 1, [J(1, abs_group=0), J(2, group=1)]))
@@ -271,32 +287,25 @@ def world():
                 for a in w.table('attempts'):
                     if a['batch_id'] == bid and a['end_time'] is None:
                         A(('unschedule', a['job_id'], a['attempt_id'], 'i1'))
-        # batch 6: what POST /batches/create + bunches leave behind before the owner commits: update 1 (token = batch token)
+        # batch 7: what POST /batches/create + bunches leave behind before the owner commits: update 1 (token = batch token)
         # fully staged, not committed
-        spec = {'billing_project': 'bp', 'n_jobs': 1, 'n_job_groups': 0, 'token': 'tb6'}
+        spec = {'billing_project': 'bp', 'n_jobs': 1, 'n_job_groups': 0, 'token': 'tb7'}
         ops.BID = w.run(fe._create_batch(spec, USERDATA['u1'], w.gdb))
-        A(('new_update', 'u1', 'tb6', 1, 0))
+        A(('new_update', 'u1', 'tb7', 1, 0))
         A(('add_jobs', 'u1', 1, [J(1, abs_group=0)]))
-        # batch 7 (never a request target): u2's batch in bp2 with one job in EVERY job state -- the bait that makes a listing
-        # which escapes its batch / billing-project restriction visible whatever state filter it uses
-        spec = {'billing_project': 'bp2', 'n_jobs': 8, 'n_job_groups': 1, 'token': 'tb7', 'attributes': {'name': 'n-tb7', 'team': 'y'}}
-        ops.BID = w.run(fe._create_batch(spec, USERDATA['u2'], w.gdb))
-        A(('new_update', 'u2', 'tb7', 8, 1))
-        A(('add_groups', 'u2', 1, [G(1, parent_abs=0)]))
-        A(('add_jobs', 'u2', 1, [J(i, abs_group=0) for i in (1, 2, 3, 4)] + [J(i, group=1) for i in (5, 6, 7)] + [J(8, group=1, parents=[4])]))
-        A(('commit_tail', 'u2', 1))
-        for jid, st in ZOO_STATES.items():
-            q("UPDATE jobs SET state = %s WHERE batch_id = %s AND job_id = %s", (st, ops.BID, jid))
+        assert bait('tb8') == BAIT_HIGH
     finally:
         ops.BID = saved_bid
-    q("UPDATE batches SET deleted = 1 WHERE id = 3")
+    q("UPDATE batches SET deleted = 1 WHERE id = 4")
     w.run(_drain(w))
 
     truth = truth_from_tables(w)
-    assert sorted(truth['batches']) == [1, 2, 3, 4, 5, 6, 7], truth
-    assert {j['state'] for j in w.table('jobs') if j['batch_id'] == 7} == set(ZOO_STATES.values())
-    assert not truth['batches'][6]['first_update_committed'] and truth['batches'][1]['first_update_committed']
-    assert truth['batches'][3]['deleted'] and not truth['batches'][1]['deleted']
+    assert sorted(truth['batches']) == [1, 2, 3, 4, 5, 6, 7, 8], truth
+    for b in (BAIT_LOW, BAIT_HIGH):
+        assert {j['state'] for j in w.table('jobs') if j['batch_id'] == b} == set(ZOO_STATES.values())
+        assert truth['batches'][b]['bp'] == 'bp2' and b not in BATCH_TARGETS
+    assert not truth['batches'][7]['first_update_committed'] and truth['batches'][2]['first_update_committed']
+    assert truth['batches'][4]['deleted'] and not truth['batches'][2]['deleted']
 
     app = web.Application()
     app.add_routes(fe.routes)
@@ -494,6 +503,7 @@ def route_table():
 # ------------------------------------------------------------------------------------------------------
 # search queries for the listing routes: every branch of front_end/query/{query,query_v1,query_v2}.py term parsing
 # ------------------------------------------------------------------------------------------------------
+PAGE_KEYS = ('0', '1', '2', '4', '8', '100')
 JOB_STATE_TERMS = ('pending', 'ready', 'creating', 'running', 'live', 'cancelled', 'error', 'failed', 'bad', 'success', 'done')
 BATCH_STATE_TERMS = ('open', 'closed', 'complete', 'running', 'cancelled', 'failure', 'success')
 T0, T1 = '2000-01-01T00:00:00Z', '2100-01-01T00:00:00Z'
@@ -620,10 +630,23 @@ def request_variants(method, path, cls, target):
                 add(f'q={qs!r}', query={'q': qs}, tag='q+' if qs in Q_EXTRA else 'q')
                 if path.endswith('/jobs') and any(t in qs for t in ('live', 'bad', 'done')) and ' ' not in qs.replace(' = ', '=').replace(' != ', '!=') and '\n' not in qs:
                     add(f'recursive, q={qs!r}', query={'q': qs, 'recursive': 'true'}, tag='q')
-            if path.endswith('/jobs'):
-                add('page after job 1', query={'last_job_id': '1'}, tag='q')
+            # paging keys: before the first row, mid, the last row, beyond; alone and with a state filter
+            for last in PAGE_KEYS:
+                for qs in (None, 'state = done' if v2 else 'done', 'state = live' if v2 else 'live', 'name = j1' if v2 else 'name=j1'):
+                    query = {'last_job_id': last, **({'q': qs} if qs is not None else {})}
+                    add(f'page after job {last}, q={qs!r}', query=query, tag='q')
+                    if path.endswith('/jobs') and qs in (None, 'done', 'state = done'):
+                        add(f'recursive, page after job {last}, q={qs!r}', query={**query, 'recursive': 'true'}, tag='q')
+        elif path.endswith('/jobs/resources'):
+            for last in (None,) + PAGE_KEYS:
+                for limit in (None, '1', '2', '10000', '0', '10001', 'x'):
+                    if last is None and limit is None:
+                        continue
+                    query = {k: v for k, v in (('last_job_id', last), ('limit', limit)) if v is not None}
+                    add(f'page {query}', query=query, tag='q')
         elif path.endswith('/job-groups'):
-            add('page after group 0', query={'last_job_group_id': '0'}, tag='q')
+            for last in ('0', '1', '5'):
+                add(f'page after group {last}', query={'last_job_group_id': last}, tag='q')
     elif cls == 'bp-admin':
         ui = not path.startswith('/api/')
         if path.endswith('/edit'):
@@ -649,6 +672,11 @@ def request_variants(method, path, cls, target):
         if path.endswith('/completed'):
             add('default')
             add('limit 1', query={'limit': '1'})
+            for limit in (None, '1', '2', '100', 'x'):
+                for ts in (None, '0', '15', '2000000', '99999999999999'):
+                    if limit is not None or ts is not None:
+                        query = {k: v for k, v in (('limit', limit), ('last_completed_timestamp', ts)) if v is not None}
+                        add(f'page {query}', query=query, tag='q')
         else:
             add('default')
             add('all', query={'q': ''})
@@ -656,7 +684,10 @@ def request_variants(method, path, cls, target):
             add('foreign project', query={'q': 'billing_project = bp2' if v2 else 'billing_project:bp2'})
             for qs in (q_batches_v2() if v2 else q_batches_v1()):
                 add(f'q={qs!r}', query={'q': qs}, tag='q+' if qs in Q_EXTRA else 'q')
-            add('page before batch 7', query={'q': '', 'last_batch_id': '7'}, tag='q')
+            for last in ('0', '1', '3', '5', '8', '9', '100'):
+                for qs in (None, '', 'user = u2' if v2 else 'user:u2', 'billing_project = bp2' if v2 else 'billing_project:bp2',
+                           'state = complete' if v2 else 'complete'):
+                    add(f'page before batch {last}, q={qs!r}', query={'last_batch_id': last, **({'q': qs} if qs is not None else {})}, tag='q')
     elif cls == 'list-billing':
         add('since 2024', query={'start': '01/01/2024'})
     elif cls in ('list-billing-projects', 'bp-admin-page', 'authenticated', 'public'):
@@ -890,19 +921,19 @@ SESSION_CACHE_MS = 11_000   # gear.auth caches /userinfo answers for 10 s; accou
 
 # (operation, caller whose rights are probed, target batch)
 HISTORY_COMBOS = [
-    (('remove-user', 'bp', 'u1'), 'u1', 1), (('remove-user', 'bp', 'u1'), 'u1', 4),
-    (('remove-user', 'bp', 'u2'), 'u2', 1), (('remove-user', 'bp', 'u2'), 'u2', 4),
-    (('remove-user', 'bp2', 'u2'), 'u2', 2),
-    (('add-user', 'bp', 'u3'), 'nonmember', 1), (('add-user', 'bp', 'u3'), 'nonmember', 4),
-    (('add-user', 'bp2', 'u1'), 'u1', 2),
-    (('close-project', 'bp2'), 'u2', 2), (('close-project', 'bp2'), 'u1', 2),
-    (('reopen-project', 'bpc'), 'u1', 1),
-    (('delete-batch', 1, 'u1'), 'u1', 1), (('delete-batch', 1, 'u1'), 'u2', 1),
-    (('delete-batch', 4, 'u2'), 'u1', 4), (('delete-batch', 4, 'u2'), 'u2', 4),
-    (('deactivate-user', 'u1'), 'u1', 1), (('deactivate-user', 'u1'), 'u1', 4), (('deactivate-user', 'u2'), 'u2', 2),
-    (('revoke-session', 'u1'), 'u1', 1),
+    (('remove-user', 'bp', 'u1'), 'u1', 2), (('remove-user', 'bp', 'u1'), 'u1', 5),
+    (('remove-user', 'bp', 'u2'), 'u2', 2), (('remove-user', 'bp', 'u2'), 'u2', 5),
+    (('remove-user', 'bp2', 'u2'), 'u2', 3),
+    (('add-user', 'bp', 'u3'), 'nonmember', 2), (('add-user', 'bp', 'u3'), 'nonmember', 5),
+    (('add-user', 'bp2', 'u1'), 'u1', 3),
+    (('close-project', 'bp2'), 'u2', 3), (('close-project', 'bp2'), 'u1', 3),
+    (('reopen-project', 'bpc'), 'u1', 2),
+    (('delete-batch', 2, 'u1'), 'u1', 2), (('delete-batch', 2, 'u1'), 'u2', 2),
+    (('delete-batch', 5, 'u2'), 'u1', 5), (('delete-batch', 5, 'u2'), 'u2', 5),
+    (('deactivate-user', 'u1'), 'u1', 2), (('deactivate-user', 'u1'), 'u1', 5), (('deactivate-user', 'u2'), 'u2', 3),
+    (('revoke-session', 'u1'), 'u1', 2),
     # controls: a change that concerns somebody else leaves the caller's rights alone
-    (('remove-user', 'bp', 'u2'), 'u1', 4), (('remove-user', 'bp', 'u1'), 'u2', 1),
+    (('remove-user', 'bp', 'u2'), 'u1', 5), (('remove-user', 'bp', 'u1'), 'u2', 2),
 ]
 PROBES = [('GET', '/api/v1alpha/batches/{batch_id}'), ('PATCH', '/api/v1alpha/batches/{batch_id}/cancel'),
           ('DELETE', '/api/v1alpha/batches/{batch_id}'), ('GET', '/api/v1alpha/batches/{batch_id}/jobs/{job_id}/log'),
@@ -1238,7 +1269,7 @@ def check(tier, seed, procs):
     nontrivial = {(r['route'], r['caller'], str(r['target']), r['variant']) for r in rows
                   if r['class'] != 'public' and (not r['may'] or r['must'])}
     samples = [{k: r[k] for k in ('route', 'caller', 'target', 'variant', 'status', 'may', 'changed')} for r in rows[:1]]
-    for pred in (lambda r: not r['may'] and r['class'] == 'batch-write' and r['caller'] == 'u2' and r['target'] == 1,
+    for pred in (lambda r: not r['may'] and r['class'] == 'batch-write' and r['caller'] == 'u2' and r['target'] == 2,
                  lambda r: r['must'] and r['class'] == 'batch-cancel-delete' and r['changed'],
                  lambda r: r['class'] == 'list-batches' and r.get('listed')):
         for r in rows:
@@ -1321,7 +1352,7 @@ def check(tier, seed, procs):
 KNOWN_EXCEPTIONS = {
     ('GET /api/v1alpha/batches/completed', 'exception:IndexError'),
     ('PATCH /api/v1alpha/batches/{batch_id}/close', 'exception:OperationalError'),
-    # the owner sends update-fast with n_jobs = 1 and an empty bunch under a token that names no update of batch 6:
+    # the owner sends update-fast with n_jobs = 1 and an empty bunch under a token that names no update of batch 7:
     # commit_batch_update answers rc = 1 (wrong number of jobs), _commit_update only translates rc == 2 -> CallError
     ('POST /api/v1alpha/batches/{batch_id}/update-fast', 'exception:CallError'),
 }
@@ -1342,7 +1373,7 @@ ASSUME = [
     'minisql resolves column names lazily: the broken `NOT deleted` in close_batch (no such column in job_groups) raises 1054 only when the '
     'preceding `user = %s` conjunct holds, MySQL would raise it for every caller; either way a non-owner is refused (404 here, 500 there)',
     'non-HTTP exceptions raised by a handler count as an error answer (aiohttp turns them into 500)',
-    'the job states of the bait batch 7 are written directly into jobs.state (one job per state incl. Creating / Pending); it is never a request '
+    'the job states of the bait batches 1 and 8 are written directly into jobs.state (one job per state incl. Creating / Pending); it is never a request '
     'target, only something a leaking listing would show',
     'history phase: one World = one front-end process; module-level state is restored between histories from a snapshot taken after seeding '
     '(dict / list / set / deque containers, instance __dict__ of batch / gear / web_common / hailtop / sortedcontainers objects, lru caches, '
